@@ -72,6 +72,12 @@ CLAIMED.update({
                 note="K = 3 quick / 5 thorough; bounds in small boxes. lower-affine and desymref are not covered (no reference semantics built for affine/symref): stated gap. Trusted: vx/refprog.py."),
 })
 
+CLAIMED.update({
+    "C28": dict(cat="translation_validation", design="DESIGN.md §4 C28",
+                text="Translation validation (M3): pure arith functions (<=5 ops, shapes chosen to force nested merges, merges against block order, shared subterms) go through eqsat-create-eclasses, apply-eqsat-pdl-interp with rule sets compiled by the real PDL->pdl_interp->eqsat_pdl_interp conversions, eqsat-add-costs and eqsat-extract; source and extracted function get meaning on SYMBOLIC arguments and z3 decides equality for all inputs; every rule is proved sound first; exceptions, leftover e-class ops and non-verifying output are violations.",
+                note="Constants are concrete (the e-graph hashes them); the solver's dimension is the function arguments. 10 programs x 5 rule sets."),
+})
+
 NOT_APPLICABLE = {
     "C05": "custom assembly formats: the quantifier is over ~80 dialects' op definitions/format programs; no data dimension for a solver beyond what C04/C06 cover for leaves (DESIGN §5)",
     "C17": "pass x corpus-module cross product: deciding it means running each pair concretely; no symbolic dimension (DESIGN §5)",
